@@ -332,6 +332,8 @@ def replay_path(rp, r):
         return real, "result %s, protocol demands %s" % (res, want)
     if want == "ConsumerError" and ("ScriptError(%d)" % (ai - 1)) not in str(res):
         return real, "result %s does not carry the error answered by callback #%d" % (res, ai - 1)
+    if want == "ConsumerError" and real.get("own_error") != ai - 1:
+        return real, "ConsumerError does not carry the consumer's own error value (downcast to the consumer's error type gives %r, callback #%d answered it)" % (real.get("own_error"), ai - 1)
     return real, None
 
 
